@@ -2766,8 +2766,10 @@ pub fn freeze(env: &mut FreezeEnv, expr: &LocExpr) -> NRes<LocExpr> {
                         .iter()
                         .map(|x| match x {
                             ForIteration::Iteration(ty, lv, expr) => {
+                                // the iteratee is evaluated before the clause binds anything, so
+                                // freeze it before binding (`for (x <- x)` reads the outer x)
+                                let expr = box_freeze(&mut env2, expr)?;
                                 // have to bind first so box_freeze_lvalue works
-                                // also recursive functions work ig
                                 env2.bind(lv.collect_identifiers(
                                     match ty {
                                         ForIterationType::Normal => false,
@@ -2778,7 +2780,7 @@ pub fn freeze(env: &mut FreezeEnv, expr: &LocExpr) -> NRes<LocExpr> {
                                 Ok(ForIteration::Iteration(
                                     *ty,
                                     box_freeze_lvalue(&mut env2, lv)?,
-                                    box_freeze(&mut env2, expr)?,
+                                    expr,
                                 ))
                             }
                             ForIteration::Guard(expr) => {
